@@ -112,7 +112,7 @@ def reference_items(glob, wide):
         elif kind == G.STAR:
             items.append(("noslash*",))
         else:
-            if wide and i + 1 < len(toks) and toks[i + 1] == (G.LIT, "/"):
+            if wide and i + 1 < len(toks) and toks[i + 1] == (G.LIT, "/") and (i == 0 or toks[i - 1] == (G.LIT, "/")):
                 items.append(("optdirs",))
                 i += 1
             else:
